@@ -20,6 +20,12 @@ CHECKS.update({
    text='Same as C01 for every Dual2 operator impl: value, gradient per name, and Hessian per pair of names equal to the second-order chain rule f_a H_a + f_b H_b + f_aa g_a g_a^T + f_ab(g_a g_b^T + g_b g_a^T) + f_bb g_b g_b^T under the representation invariant (dual2 symmetric = half the Hessian), symmetry of the result, for 0..2 / 0..3 symbolic names per operand.',
    note='As C01. The Hessian read-back by name (gradient2) and Dual::from(Dual2) are checked under C17/C18.'),
 })
+CHECKS.update({
+ 'C03': dict(engine='mirsym', technique='symbolic execution of the MIR of the &T op &T operator bodies and == with symbolic variable names; relational (two-run) validity query per path: a re-layout of an operand gives a name-equivalent result; native replay',
+   category='model_checking', design_ref='DESIGN.md §3.3',
+   text='For + - * % and == on Dual and Dual2, z3 proves on every feasible path that replacing operand a by ANY re-layout a\' (symbolic name list of length 0..2/0..3: other order, extra names with zero derivative, dropped zero-derivative names, variable list shared with b or not; constrained only to have the same value and the same derivative per name) yields a result that is equal per name, equal under the crate\'s own ==, carries exactly the union of names once each with matching array shapes, that a\'==a, and that a==b holds exactly when values and all per-name derivatives agree (missing name = zero).',
+   note='Reals instead of floats; list lengths <=2 quick / <=3 thorough (<=2 for Dual2); division is covered by C01/C02 clauses (vars = union, shapes).'),
+})
 NA_REASON = 'no registered check in this revision yet (work in progress; planned solver-based check described in DESIGN.md §3) — not claimed'
 
 checks = []
@@ -48,7 +54,7 @@ m = {
            'add_only': True},
  'engines': [
    {'name': 'kani', 'path': '/verif/kani', 'serves_properties': ['C08', 'C11', 'C20', 'C04'], 'kind_free_text': 'Kani 0.68 / CBMC 6.11 proof harnesses over the compiled crate (path dependency on /repo), native replay binary in the same crate'},
-   {'name': 'mirsym', 'path': '/verif/mirsym', 'serves_properties': ['C01','C02'], 'kind_free_text': 'symbolic executor for rustc MIR (regenerated from /repo on every run) discharging path obligations with z3'},
+   {'name': 'mirsym', 'path': '/verif/mirsym', 'serves_properties': ['C01','C02','C03'], 'kind_free_text': 'symbolic executor for rustc MIR (regenerated from /repo on every run) discharging path obligations with z3'},
    {'name': 'tables', 'path': '/verif/tables', 'serves_properties': ['C07'], 'kind_free_text': 'SMT encoding of the static holiday tables against the published rules over a symbolic day'},
  ],
  'checks': checks,
